@@ -114,7 +114,8 @@ package bondmachine
 //@   assigns bmach.Links[*]
 //@   loop 1: modifies nothing
 //@   loop 1: invariant unmatched: forall l int :: 0 <= l && l < $i ==> bondName(bmach.Internal_inputs[l]) != endpoints[0] && bondName(bmach.Internal_inputs[l]) != endpoints[1]
-//@   loop 2: modifies nothing
+//@   loop 2: modifies spare(opcodes)
+//@   loop 2: invariant own: cap(opcodes) == 0 || freshl(opcodes)
 //@   loop 3: modifies nothing
 
 //@ func (bmach *Bondmachine) Add_input() (string, error)
@@ -255,6 +256,7 @@ package bondmachine
 //@   ensures zero: num <= 0 ==> result == 0
 //@   ensures adequate: num > 0 ==> result >= 1 && result <= 62 && num <= pow2(result)
 //@   ensures tight: num > 0 ==> (result == 1 || pow2(result - 1) < num)
+//@   assigns nothing
 //@   loop 1: invariant 1 <= bits && bits <= 62 && (bits == 1 || pow2(bits - 1) < num) && num > 0 && num == old(num)
 //@   loop 1: decreases 63 - bits
 
@@ -315,3 +317,55 @@ package bondmachine
 //@   covers result Bondmachine
 //@   frameonly
 //@   loop 1: invariant forall k int :: 0 <= k && k < $i ==> machineLoaded(result.Domains[k], bmachj.Domains[k])
+
+// ---- attaching a benchmark core ---------------------------------------------------------------------------------
+
+// Facts about endpoint names that the uninterpreted string model cannot derive (assumed; each use is listed in the
+// evidence). A name determines its endpoint, because a letter that is not a digit separates the decimal fields: this
+// is stated through decoding functions of which only these equations are known. The literals "i0", "i1", "o0" are
+// the letter followed by the decimal rendering of the index.
+//@ uninterp nameKind(s string) int
+//@ uninterp nameRes(s string) int
+//@ uninterp nameExt(s string) int
+//@ axiom nameOfInput: forall k int :: nameKind(cat("i", itoa(k))) == 0 && nameRes(cat("i", itoa(k))) == k
+//@ axiom nameOfOutput: forall k int :: nameKind(cat("o", itoa(k))) == 1 && nameRes(cat("o", itoa(k))) == k
+//@ axiom nameOfProcInput: forall c int, e int :: nameKind(cat(cat(cat("p", itoa(c)), "i"), itoa(e))) == 2 &&
+//@         nameRes(cat(cat(cat("p", itoa(c)), "i"), itoa(e))) == c && nameExt(cat(cat(cat("p", itoa(c)), "i"), itoa(e))) == e
+//@ axiom nameOfProcOutput: forall c int, e int :: nameKind(cat(cat(cat("p", itoa(c)), "o"), itoa(e))) == 3 &&
+//@         nameRes(cat(cat(cat("p", itoa(c)), "o"), itoa(e))) == c && nameExt(cat(cat(cat("p", itoa(c)), "o"), itoa(e))) == e
+//@ axiom nameLiterals: forall s string :: cat(s, "i0") == cat(cat(s, "i"), itoa(0)) && cat(s, "i1") == cat(cat(s, "i"), itoa(1)) &&
+//@         cat(s, "o0") == cat(cat(s, "o"), itoa(0))
+
+// The benchmark core is a new domain, a new processor on it, a new external output and three new bonds; every link
+// slot and every endpoint that existed before is untouched.
+//@ func (bmach *Bondmachine) Attach_benchmark_core(endpoints []string) error
+//@   requires wfBM(bmach) && len(endpoints) >= 2 && bmach.Outputs < pow2(62)
+//@   ensures wf: wfBM(bmach)
+//@   ensures old_inputs: forall p int :: 0 <= p && p < old(len(bmach.Internal_inputs)) ==>
+//@             bmach.Internal_inputs[p] == old(bmach.Internal_inputs[p]) && bmach.Links[p] == old(bmach.Links[p])
+//@   ensures old_outputs: forall p int :: 0 <= p && p < old(len(bmach.Internal_outputs)) ==> bmach.Internal_outputs[p] == old(bmach.Internal_outputs[p])
+//@   ensures rejected: result != nil ==> sameLinks(bmach) && sameInternalInputs(bmach) && sameInternalOutputs(bmach)
+//@   uses nameOfInput, nameOfOutput, nameOfProcInput, nameOfProcOutput, nameLiterals
+//@   frameonly
+//@   loop 1: modifies nothing
+//@   loop 1: invariant e0: e0 == "" || (e0 == endpoints[0] && (exists q int :: 0 <= q && q < len(bmach.Internal_outputs) && bondName(bmach.Internal_outputs[q]) == e0))
+//@   loop 1: invariant e1: e1 == "" || (e1 == endpoints[1] && (exists q int :: 0 <= q && q < len(bmach.Internal_outputs) && bondName(bmach.Internal_outputs[q]) == e1))
+//@   loop 2: modifies spare(opcodes)
+//@   loop 2: invariant own: cap(opcodes) == 0 || freshl(opcodes)
+//@   loop 3: modifies nothing
+
+//@ func (bmach *Bondmachine) AttachBenchmarkCoreV2(endpoints []string) error
+//@   requires wfBM(bmach) && len(endpoints) >= 2 && bmach.Outputs < pow2(62)
+//@   ensures wf: wfBM(bmach)
+//@   ensures old_inputs: forall p int :: 0 <= p && p < old(len(bmach.Internal_inputs)) ==>
+//@             bmach.Internal_inputs[p] == old(bmach.Internal_inputs[p]) && bmach.Links[p] == old(bmach.Links[p])
+//@   ensures old_outputs: forall p int :: 0 <= p && p < old(len(bmach.Internal_outputs)) ==> bmach.Internal_outputs[p] == old(bmach.Internal_outputs[p])
+//@   ensures rejected: result != nil ==> sameLinks(bmach) && sameInternalInputs(bmach) && sameInternalOutputs(bmach)
+//@   uses nameOfInput, nameOfOutput, nameOfProcInput, nameOfProcOutput, nameLiterals
+//@   frameonly
+//@   loop 1: modifies nothing
+//@   loop 1: invariant e0: e0 == "" || (e0 == endpoints[0] && (exists q int :: 0 <= q && q < len(bmach.Internal_outputs) && bondName(bmach.Internal_outputs[q]) == e0))
+//@   loop 1: invariant e1: e1 == "" || (e1 == endpoints[1] && (exists q int :: 0 <= q && q < len(bmach.Internal_outputs) && bondName(bmach.Internal_outputs[q]) == e1))
+//@   loop 2: modifies spare(opcodes)
+//@   loop 2: invariant own: cap(opcodes) == 0 || freshl(opcodes)
+//@   loop 3: modifies nothing
